@@ -1,5 +1,6 @@
 import ApolloModel.Model.Proto
 import ApolloModel.Model.ExecValidation
+import ApolloModel.Model.ExecValidationCache
 import ApolloModel.Spec.ExecValidation
 open Apollo Apollo.Proto Apollo.ExecVal
 namespace Driver
@@ -137,6 +138,11 @@ def c17 (stream : String) (fs : List String) : String :=
   | "c17.merge", [fs] =>
     match c17AFieldsAll (String.ofList (decodeField fs)) with
     | some fs => if xingCanMerge 128 fs then "ok" else "conflict"
+    | none => "bad-case"
+  | "c17.mergecached", [fs] =>
+    -- the algorithm with the validator's cache and guards (Model/ExecValidationCache.lean)
+    match c17AFieldsAll (String.ofList (decodeField fs)) with
+    | some fs => if xingCachedDoc AField.beqList 128 [fs] then "ok" else "conflict"
     | none => "bad-case"
   | "c17.mergespec", [fs] =>
     match c17AFieldsAll (String.ofList (decodeField fs)) with
